@@ -497,7 +497,7 @@ fn run(sc: &Scenario, seed: u64) -> Option<Obs> {
 
 // ------------------------------------------------------------------ scripted attacker server
 
-use vh::dtls_attacker::{ScriptedServer, SigKind, Step, SIG_KINDS};
+use vh::dtls_attacker::{Finale, ScriptedServer, SigKind, Step, FINALES, SIG_KINDS};
 
 /// token <-> step for the GENERATED script space (names are "g:" + tokens joined by ',')
 fn alphabet() -> Vec<(String, Step)> {
@@ -657,11 +657,16 @@ struct SObs {
     exporter_ok: bool,
     app_rx: usize,
     server_finished_sent: bool,
+    finale_sent: bool,
     end_ms: u64,
 }
 
 /// A real client A (expecting `fp`) against the scripted attacker server standing at B's address.
 fn run_scripted(script: &[Step], fp: Fp, seed: u64) -> Option<SObs> {
+    run_scripted_f(script, fp, seed, Finale::Proper)
+}
+
+fn run_scripted_f(script: &[Step], fp: Fp, seed: u64, finale: Finale) -> Option<SObs> {
     let script = script.to_vec();
     sim::run_with_watchdog(seed, Duration::from_secs(30), move || {
         Box::pin(async move {
@@ -671,7 +676,7 @@ fn run_scripted(script: &[Step], fp: Fp, seed: u64) -> Option<SObs> {
             let cfg_a = EndCfg { with_sctp: false, channels: vec![], expected_fingerprint: fp_of(fp, &certs.b), rtc: sim::default_rtc() };
             let mut a = sim::mk_end(Side::A, certs.a.clone(), net_tx.clone(), &cfg_a).await;
             drop(net_tx);
-            let mut srv = ScriptedServer::new(&certs.x.private_key, script).with_honest_key(&certs.b.private_key);
+            let mut srv = ScriptedServer::new(&certs.x.private_key, script).with_honest_key(&certs.b.private_key).with_finale(finale);
             let mut buf = Vec::new();
             let mut quiet: Option<u64> = None;
             loop {
@@ -707,6 +712,7 @@ fn run_scripted(script: &[Step], fp: Fp, seed: u64) -> Option<SObs> {
                 }
             }
             o.server_finished_sent = srv.finished_sent;
+            o.finale_sent = srv.finale_sent;
             o.end_ms = now_ms(start);
             for h in a.tasks.drain(..) {
                 h.abort();
@@ -830,7 +836,8 @@ fn main() {
                 "Absent" => Fp::Absent,
                 _ => Fp::Wrong,
             };
-            let o = run_scripted(script, fp, cli.seed);
+            let finale = v["replay"]["finale"].as_u64().map(|i| FINALES[i as usize]).unwrap_or(Finale::Proper);
+            let o = run_scripted_f(script, fp, cli.seed, finale);
             let vs = o.as_ref().map(|o| if generated { judge_generated(name, script, fp, o) } else { judge_scripted(name, script, fp, o) });
             println!("{o:?}\n verdicts={vs:?}");
             std::process::exit(if vs.map_or(true, |v| !v.is_empty()) { 1 } else { 0 });
@@ -969,6 +976,33 @@ fn main() {
             rep.violation(vh::Violation { signature: sig, detail, replay: replay.clone() });
         }
     }
+    // forged endings: the attacker, who holds no usable key for these scripts, answers the client's
+    // second flight with a Finished in the clear (every length / filler of FINALES). Whatever the
+    // first flight was - also the genuine certificate with the genuine, oracle-signed key exchange - a
+    // client expecting the genuine certificate must end Failed.
+    let fin_scripts: Vec<(String, Vec<Step>)> = ["g:B,HKE", "g:B,KE", "g:B,HKE,KE", "g:X,KE", "g:B", "g:HKE", "g:B,HKE,SH2", "g:B,SH2,HKE", "g:[B+X],HKE", "g:B,HKE,SHD"].iter().map(|n| (n.to_string(), script_from_name(n).expect("name"))).collect();
+    let fin_cases: Vec<(usize, usize)> = (0..fin_scripts.len()).flat_map(|i| (0..FINALES.len()).map(move |f| (i, f))).collect();
+    let fin_results: Vec<((usize, usize), Option<SObs>)> = fin_cases.par_iter().map(|c| (*c, run_scripted_f(&fin_scripts[c.0].1, Fp::Correct, cli.seed, FINALES[c.1]))).collect();
+    let mut finales_delivered = 0u64;
+    for ((i, f), o) in &fin_results {
+        let (name, script) = &fin_scripts[*i];
+        let tag = format!("{name}|finale={:?}", FINALES[*f]);
+        let replay = json!({"scripted": name, "fp_client_expects": "Correct", "finale": *f});
+        let Some(o) = o else {
+            rep.violation(vh::Violation { signature: format!("livelock;server-script={tag}"), detail: "watchdog fired".into(), replay });
+            continue;
+        };
+        finales_delivered += u64::from(o.finale_sent);
+        outcomes.insert(format!("finale|{}|{}|{}", o.state, o.exporter_ok, o.app_rx));
+        for (sig, detail) in judge_generated(&tag, script, Fp::Correct, o) {
+            rep.violation(vh::Violation { signature: sig, detail, replay: replay.clone() });
+        }
+    }
+    if finales_delivered == 0 {
+        vh::machinery_failure("forged-ending block is vacuous: the client never sent its second flight");
+    }
+    rep.set("forged_ending_histories", fin_cases.len() as u64);
+    rep.set("forged_endings_delivered_after_client_key_exchange", finales_delivered);
     if gen_connected == 0 || gen_failed == 0 {
         vh::machinery_failure(&format!("generated script space is vacuous: connected={gen_connected} failed={gen_failed}"));
     }
@@ -981,7 +1015,7 @@ fn main() {
         vh::machinery_failure("scripted attacker self-test failed: a client expecting the attacker's own fingerprint did not connect to it");
     }
     rep.set("scripted_server_histories", sc_cases.len() as u64);
-    let total = scenarios.len() as u64 + sc_cases.len() as u64 + gen_cases.len() as u64;
+    let total = scenarios.len() as u64 + sc_cases.len() as u64 + gen_cases.len() as u64 + fin_cases.len() as u64;
     rep.set("states", total);
     rep.set("transitions", results.iter().map(|(_, o)| o.as_ref().map(|o| o.tampered as u64 + 1).unwrap_or(0)).sum::<u64>());
     rep.set("traces_validated_against_impl", total);
